@@ -415,7 +415,9 @@ func cmdCheck(args []string) int {
 		"coverage":    cov,
 		"assumptions": append([]string{
 			"go/ssa lowering of the source is faithful (bridged by native replay of solver witnesses and sampled paths)",
-			"intrinsics model strings/strconv/unicode/utf8/sort/net-url helpers; stubs: idna ToASCII (ASCII, no ACE label => ASCII-lowercase), regexp `\\.\\.+`, fmt formatting",
+			"intrinsics model strings/strconv/unicode/utf8/sort/net-url helpers; stubs: idna ToASCII (ASCII, no ACE label => ASCII-lowercase; error <=> a byte outside [A-Za-z0-9.-], both validated against the real library by the selftest), regexp `\\.\\.+`, fmt formatting",
+			"sync.Mutex/RWMutex/Once, sync.Map and sync/atomic are modelled sequentially (lock sets instead of blocking; Eraser-style lockset rule while the C14 write monitor is on); sync.Pool, channels and goroutines started by the library are not modelled (a path reaching them is inconclusive)",
+			"sound pre-filters (per-byte domains, interval sets of wider variables, byte cuts, syntactic implication, cached models) only ever declare a branch side infeasible or feasible; property obligations always go to the solver",
 			"bounds as listed in coverage.bounds; anything in coverage.outside_bound is not claimed",
 		}, spec.Assumptions...),
 		"wall_s":     round2(wall),
